@@ -31,6 +31,9 @@ Definition eS (k inc : Z) : ev := ESample (Z.to_nat k) inc.
 Definition eR : ev := ERead.
 Definition iCol (md : string) (bykey : bool) (its : list item) (h : list ev) : cin :=
   ICollect (unhex md) bykey (map fst its) h.
+(* large key set: style, number of keys, value hash (i*a+b) mod m, row limit, number of arrival orders *)
+Definition iTop (md : string) (style n a b m limit reps : Z) : cin :=
+  ITop (unhex md) (big_items (Z.to_nat style) (Z.to_nat n) a b m) (Z.to_nat limit) (Z.to_nat reps).
 Definition oErr : cout := OErr.
 Definition oPanic : cout := OPanic.
 Definition oAx (m : list (list bool)) : cout := OAx m.
